@@ -71,9 +71,9 @@ CLAIMS = {
               "Lean 4 proof (round trip + rejections) + differential correspondence"),
     "C09": _c("Proved: the executable reference reader accepts exactly the declarative grammar (which is unambiguous), and the code's parser = "
               "reference reader ∘ denotation ∘ the library's constructors; hence parse_complete and parse_sound; accepted strings are ASCII; footer "
-              "framing. " + _K +
+              "framing. " + _S + _K +
               "tzfooter family through v2/v3 footers: bounded-exhaustive over a 16-letter alphabet, token sequences, grammar-directed sentences, mutations.",
-              "Lean 4 proof (grammar = reader = parser) + bounded-exhaustive differential correspondence"),
+              "Lean 4 proof (grammar = reader = parser) + parser source translated to Lean and proved equal to the model + bounded-exhaustive differential correspondence"),
     "C10": _c("Proved: the model's forward lookup equals the executable spec the oracle runs (lookup_is_the_executable_spec) and the 32 distinct "
               "DST rules of the vendored snapshot, regenerated into Lean each run and cross-checked against what the implementation decodes, satisfy "
               "the hypotheses of C04/C05/C06 (iana_rules_satisfy_hypotheses). Decided by: four-way differential on the vendored tzdata 2025b (894 files): Rust implementation, Lean model (whose lookup/decoding is proved "
